@@ -125,6 +125,7 @@ type analyzer struct {
 	retFresh map[*ssa.Function]bool
 	addrTkn  map[*ssa.Function]bool
 	named    []types.Type // named types of the packages and pointers to them
+	priv     *privacy     // call-private types and the locations that are local because of them (private.go)
 	globals  map[string]bool
 }
 
@@ -634,6 +635,9 @@ func (a *analyzer) collect(fi *fnInfo) {
 	held := a.lockStates(fn)
 	add := func(ins ssa.Instruction, kind int, tgts ...string) {
 		for _, t := range tgts {
+			if a.priv != nil && a.priv.owned[t] {
+				continue // memory of an object of a call-private type: local (private.go)
+			}
 			fi.sites = append(fi.sites, site{kind: kind, tgt: t, held: held[ins], block: ins.Block()})
 		}
 	}
@@ -1012,6 +1016,8 @@ func main() {
 		}
 	}
 
+	a.priv = a.computePrivacy(pkgs)
+
 	goStmts := 0
 	for _, fi := range a.fns {
 		a.collect(fi)
@@ -1329,6 +1335,7 @@ func main() {
 	w := func(format string, args ...any) { fmt.Fprintf(&sb, format, args...) }
 	w("-- GENERATED by harness/cmd/extract-access from the Go source of pkg/yang and pkg/indent. Do not edit.\n")
 	w("-- Regenerated by `./check C19 <tier>` on every run; see harness/cmd/extract-access/allow.json for the reviewed input.\n")
+	w("-- Call-private types (their objects' own memory is local and produces no fact): %s\n", strings.Join(a.privateTypeNames(), ", "))
 	w("import Goyang.Model.Lockset\n\nnamespace Goyang.Gen.Access\nopen Goyang.Model.Lockset\n\n")
 	w("/-- function id ↦ name (printing only) -/\ndef fnNames : Array String := #[\n")
 	for i, fi := range a.fns {
@@ -1430,6 +1437,8 @@ func main() {
 			fmt.Fprintf(&nb, "  - %s\n", d)
 		}
 	}
+	fmt.Fprintf(&nb, "\nCall-private types (objects confined to the call chain that makes them; see private.go): %s\n", strings.Join(a.privateTypeNames(), ", "))
+	fmt.Fprintf(&nb, "Locations that are local because of them: %s\n", strings.Join(sortedKeys(a.priv.owned), ", "))
 	for i, al := range cfg.Allow {
 		if matched[i] == 0 {
 			fmt.Fprintf(&nb, "note: allow-list entry %s matches no site of the current source\n", al.ID)
@@ -1450,6 +1459,15 @@ func main() {
 	}
 	fmt.Fprintf(os.Stderr, "extract-access: %d functions, %d locations, %d mutexes, reader reach %d, init-only %d\n",
 		len(a.fns), len(locs), len(mtxs), len(reach), len(initOnly))
+}
+
+func (a *analyzer) privateTypeNames() []string {
+	var out []string
+	for tn := range a.priv.cand {
+		out = append(out, a.typeStr(tn.Type()))
+	}
+	sort.Strings(out)
+	return out
 }
 
 func (a *analyzer) mutexExists(pkgs []*packages.Package, name string) bool {
